@@ -127,6 +127,17 @@ theorem range_failure_rolls_back (b : Bool) (c : Nat) (cbs : List Cb) :
               all_goals first
                 | exact ih _ _ _ _ _ h he k' hk'
                 | (simp only [Prod.mk.injEq] at h; obtain ⟨_, _, rfl⟩ := h; simp at he)
+        | take =>
+          cases hc : commit (BB.Buffer.get s1 c).1 c with
+          | mk s2 oe =>
+            cases oe with
+            | some x => simp only [range, hg, hc, Prod.mk.injEq] at h; obtain ⟨rfl, _, _⟩ := h; exact roll _ _ hk'
+            | none =>
+              simp only [range, hg, hc] at h
+              repeat' split at h
+              all_goals first
+                | exact ih _ _ _ _ _ h he k' hk'
+                | (simp only [Prod.mk.injEq] at h; obtain ⟨_, _, rfl⟩ := h; simp at he)
         | put w =>
           cases hc : commit (put s1 [w]).1 c with
           | mk s2 oe =>
